@@ -449,7 +449,8 @@ def _lint(ctx, prop):
         sw, nsw = lint.rule_SW1(ctx, files)
         sw.floor('calls with named arguments in the anchor files', nsw, 1)
         ov, nov = lint.rule_OV1(ctx, files)
-        out += [sw, ov]
+        n1, nn1 = lint.rule_N1(ctx, files)
+        out += [sw, ov, n1]
     return out
 
 
